@@ -127,7 +127,10 @@ func c05(r *Run) {
 			wit := px.heldWitness(fn, site, kP, entryHeld, s)
 			r.obW("C05.R1:"+sk, "the callback runner is called without taking the lock (needLock=false) only where processing is already held", fn, site, wit, "Held(processing)")
 		} else {
-			r.ob("C05.R1:"+sk, "needLock=true: the runner takes the lock itself", fn, site, true, "needLock=true", false)
+			// ... and then the caller must not be holding it: the runner's trylock would fail silently and the callbacks
+			// (finalizer included) would never run
+			wit := px.heldWitness(fn, site, kP, entryHeld, s)
+			r.ob("C05.R1:"+sk, "needLock=true: the runner takes the processing lock itself, so it is not called from a point where the caller already holds that lock (its trylock would fail and nobody would ever run the callbacks)", fn, site, wit != nil, "the caller does not hold processing here", true)
 		}
 		// R2: the closer never unlocks
 		ss := &Search{Fn: fn}
@@ -485,15 +488,15 @@ func c05(r *Run) {
 	// ---- R10 Detach marks the fd before closing --------------------------------------------------
 	{
 		fn := w.MustFn("(*connection).Detach")
-		var site ssa.Instruction
-		forEachIns(fn, func(ins ssa.Instruction) {
-			if isCall(ins, ro.onClose) {
-				site = ins
-			}
+		closeM := w.Fn("(*connection).Close")
+		sites := findIns(fn, func(ins ssa.Instruction) bool {
+			return isCallOrDefer(ins, ro.onClose) || (closeM != nil && isCallOrDefer(ins, closeM))
 		})
-		if site == nil {
+		if len(sites) == 0 {
 			r.ob("C05.R10:detach-marks-first", "Detach closes the connection through onClose", fn, nil, false, "onClose call missing", false)
-		} else {
+		}
+		for _, site := range sites {
+			site := site
 			ss := &Search{Fn: fn, Stop: func(ins ssa.Instruction) bool {
 				st, ok := ins.(*ssa.Store)
 				if !ok || !isStoreToField(ins, "netFD", "detaching") {
@@ -504,7 +507,7 @@ func c05(r *Run) {
 			}}
 			wit := ss.Find([]Start{Entry(fn)}, func(ins ssa.Instruction) bool { return ins == site }, false)
 			s.Visited += ss.Visited
-			r.obW("C05.R10:detach-marks-first", "Detach sets netFD.detaching before the teardown starts, so the finalizer does not close the descriptor", fn, site, wit, "detaching=true dominates onClose")
+			r.obW("C05.R10:detach-marks-first", "Detach sets netFD.detaching before the teardown starts on every path, so the finalizer does not close the descriptor that is being handed over (also when the peer already closed)", fn, site, wit, "detaching=true dominates onClose")
 		}
 	}
 	_ = flows
@@ -796,5 +799,10 @@ func c05OnceGuards(r *Run, ro *Roles, s *Search) {
 		name := w.FnName(f)
 		ok := f == ro.finalizer || (f.Parent() != nil && w.FnName(f.Parent()) == "(*netFD).connect")
 		r.ob("C05.R6:who-frees-slot:"+name, "FDOperator.Free is called only by the connection finalizer and by the dial path's deferred clean-up", f, site, ok, "caller "+name, false)
+	}
+	// the finalizer waits for the flushing lock (stop(flushing) spins): whoever is parked in Flush must have been woken
+	// before the callbacks run, or the descriptor is never closed and Close never returns
+	if r.keep == nil {
+		closeWakeRules(r, "C05.R13")
 	}
 }
